@@ -299,7 +299,31 @@ def gen_space_formula(rng, model, space, cfg):
                   and not model.space(p).is_in(space) and not space.is_in(model.space(p))]
         if others:
             ret = {"base": rng.choice(others)}
-    return {"params": params, "ret": ret, "probe": rng.random() < cfg.get("p_sprobe", 0.6)}
+    out = {"params": params, "ret": ret, "probe": rng.random() < cfg.get("p_sprobe", 0.6)}
+    if cfg.get("p_sformula_call") and rng.random() < cfg["p_sformula_call"]:
+        # the parameter formula itself calls a cells (a leaf one, so that no ItemSpace is needed to answer it): the ItemSpace
+        # becomes a dependent of that element
+        leaf = CELLS[0]
+        cands = []
+        dc = visible_cells(space)
+        if leaf in dc and dc[leaf][1].formula is not None:
+            cands.append(([], leaf, dc[leaf][1].formula["params"]))
+        for tn, t in model.spaces.items():
+            if t is space or space.is_in(t) or t.formula is not None:
+                continue
+            d2 = visible_cells(t)
+            if leaf in d2 and d2[leaf][1].formula is not None:
+                cands.append((["_model", tn], leaf, d2[leaf][1].formula["params"]))
+        if cands:
+            recv, n, tparams = rng.choice(cands)
+            names = [p_ for p_, d in tparams if d is None]
+            call = ["call", recv, n, [["c", rng.choice([0, 1, 2])] for _ in names], "pos", names]
+            if ret is not None and "refs" in ret and rng.random() < 0.6:
+                k = next(iter(ret["refs"]))
+                ret["refs"][k] = ["bin", "+", ret["refs"][k], call]
+            else:
+                out["pre"] = call
+    return out
 
 
 # --------------------------------------------------------------------------
